@@ -57,6 +57,7 @@ class ParserModel:
         for bi, t in news:
             keys.append([self.vars.root_key(a) for a in t["args"]])
         self.kind, self.hangul, self.dot, self.loc, _, self.raw = keys[0]
+        self.new_keys = keys
         if any(k is None for k in (self.kind, self.hangul, self.dot, self.loc, self.raw)):
             return
         # area trees: named Area-typed locals with a Nil assignment
@@ -173,6 +174,13 @@ def rule_group(ctx, R):
         after = sb in dblocks or not reaches_without(cfg, cfg.succ[sb], M.head, cut_blocks=dblocks)
         before = sb in dblocks or not reaches_without(cfg, cfg.succ[M.head] if M.head not in dblocks else [], sb, cut_blocks=dblocks)
         R.check(bool(dblocks) and (after or before), "parse:start:resets:%s" % nm.replace(" ", "_"), "every accepted command start assigns the pending command's %s before the next character is read (no value of the previous command or of ignored text survives)" % nm, b.blocks[sb]["stmts"][M.start[1]]["span"]["at"])
+    from .util import check_whole_loops
+    check_whole_loops(R, "parse:total:whole_text", b, cfg, "the parser reads the whole text: an ignored character continues with the next one")
+    # every place that stores a finished command hands over the same variables in the same positions
+    k0 = M.new_keys[0]
+    for k_, ks in enumerate(M.new_keys[1:], 1):
+        same = [i for i in (0, 1, 2, 3, 5) if ks[i] == k0[i]]
+        R.check(len(same) == 5, "parse:flush:fields:%d" % k_, "the store after the last character passes kind, syllable count, dot count, location and source text like the store inside the loop (positions that agree: %s of [0, 1, 2, 3, 5]; variables %s)" % (same, [vars_.name(k) for k in ks]), M.news[k_][1]["span"]["at"])
     # a finished command is stored exactly when one is pending: "nothing pending" is the value the kind variable has
     # before the first start (not a kind); every store site lies behind the test against it and cannot be bypassed
     outs = [d for d in vars_.defs.get(M.kind[1], []) if d[1] not in M.loop]
@@ -1090,3 +1098,11 @@ def rule_listfmt(ctx, R):
 
 
 RULES.append(("C04.LISTFMT", "the `check` listing line prints kind, syllable count, dot count and area, in that order (shared with C08.LISTING)", rule_listfmt))
+
+
+def _codeapi(ctx, R):
+    from . import p_c01
+    return p_c01.rule_codeapi(ctx, R)
+
+
+RULES.append(("C04.CODEAPI", "the words kind / syllable count / dot count / area count / area mean the fields of the command record: getters and constructors of UnOptCode and OptCode (shared with C01.CODEAPI)", _codeapi))
